@@ -20,6 +20,11 @@ use std::time::Instant;
 pub const SHARDS: u64 = 16;
 pub const VERIF_DIR: &str = "/verif";
 
+/// where evidence and new replay files are written (overridable for scratch runs)
+pub fn out_dir() -> PathBuf {
+    std::env::var("VERIF_OUT_DIR").map(PathBuf::from).unwrap_or_else(|_| PathBuf::from(VERIF_DIR))
+}
+
 #[derive(Clone, Copy, Debug, PartialEq, Eq)]
 pub enum Tier {
     Quick,
@@ -502,7 +507,7 @@ pub fn run_prop<P: Prop>(p: P, tier: Tier, seed: u64, replay: Option<PathBuf>) -
             exit = 2;
         }
         Some(Fail::Violation(case, v)) => {
-            let dir = Path::new(VERIF_DIR).join("replays").join(id);
+            let dir = out_dir().join("replays").join(id);
             let name = format!("violation-{}-seed{}-{:016x}.json", tier.name(), seed, hash_of(&v.sig));
             let path = dir.join(name);
             write_json(
@@ -577,7 +582,7 @@ pub fn run_prop<P: Prop>(p: P, tier: Tier, seed: u64, replay: Option<PathBuf>) -
         "wall_s": wall,
         "violations": violations,
     });
-    write_json(&Path::new(VERIF_DIR).join("evidence").join(format!("{}.json", id)), &ev);
+    write_json(&out_dir().join("evidence").join(format!("{}.json", id)), &ev);
     println!(
         "{} {} seed={} evaluations={} distinct_nontrivial={} known_hits={} wall={:.1}s exit={}",
         id,
